@@ -159,6 +159,42 @@ class Ctx:
         print(f'  native: {nd}')
         return True
 
+    # ---------------- engine K: Kani proof harnesses compiled from /repo's current tree (cfg(kani) modules)
+    def kani(self_, harness, timeout_s=1800, unwind=None):
+        """run one `#[kani::proof]` harness of the crate; returns 'success' | 'failed' | 'inconclusive' (timeout, build trouble, out of memory)"""
+        repo = os.environ.get('VERIF_REPO', '/repo')
+        root = os.path.join(CACHE, 'kani')
+        src = os.path.join(root, 'src' + ('' if repo == '/repo' else '-' + hashlib.sha256(repo.encode()).hexdigest()[:8]))
+        os.makedirs(src, exist_ok=True)
+        subprocess.check_call(['rsync', '-a', '--delete', '--exclude', 'target', '--exclude', '.git', repo.rstrip('/') + '/', src + '/'])
+        env = dict(os.environ, CARGO_NET_OFFLINE='true')
+        env.pop('RUSTFLAGS', None)
+        t0 = time.time()
+        cmd = ['cargo', 'kani', '--no-default-features', '--harness', harness, '--target-dir', os.path.join(root, 'target')]
+        try:
+            p = subprocess.run(cmd, cwd=src, env=env, stdout=subprocess.PIPE, stderr=subprocess.STDOUT, text=True, timeout=timeout_s)
+            out = p.stdout
+        except subprocess.TimeoutExpired as e:
+            out = (e.stdout or b'').decode('utf8', 'replace') if isinstance(e.stdout, bytes) else (e.stdout or '')
+            subprocess.run(['pkill', '-x', 'cbmc'])
+            res = 'inconclusive'
+            self_.kani.append({'harness': harness, 'result': res, 'why': f'timeout {timeout_s}s', 'wall_s': round(time.time() - t0, 1)})
+            return res
+        m = re.search(r'\*\* (\d+) of (\d+) failed', out)
+        vt = re.search(r'Verification Time: ([0-9.]+)s', out)
+        if 'VERIFICATION:- SUCCESSFUL' in out and m and m.group(1) == '0':
+            res = 'success'
+        elif 'VERIFICATION:- FAILED' in out and 'Status: ERROR' not in out and m and int(m.group(1)) > 0:
+            res = 'failed'
+        else:
+            res = 'inconclusive'
+        failed = re.findall(r'Failed Checks: (.*)', out)[:3]
+        self_.kani.append({'harness': harness, 'result': res, 'checks': int(m.group(2)) if m else None, 'failed_checks': failed,
+                           'solver_s': float(vt.group(1)) if vt else None, 'wall_s': round(time.time() - t0, 1)})
+        if vt:
+            self_.solver_s += float(vt.group(1))
+        return res
+
     # ---------------- native replay
     def replay_bin(self):
         if self._replay_bin:
